@@ -10,6 +10,11 @@
    claim "nothing is missing" (DepFile_claim.cfg: the retain file still is) are both rejected.
 2. Binding R: each exported command is linked for real with --dependency-file; the Makefile syntax is
    parsed, paths are resolved, and target / set / multiplicity are compared with Read(cmd).
+2b. HISTORY: the spec's environment action Vanish (an input that was read disappears after
+   verify_inputs_unchanged and before the dependency file is written; DepFile_history.cfg, the variant
+   that skips vanished files must be rejected by TLC) is replayed for a few commands per run: wild is
+   stopped at the cfg-guarded pause point `verified` (WILD_VERIF_PAUSE), one input of each kind is deleted,
+   wild is released; the dependency file must still list everything that was read.
 3. The rule Read itself is pinned independently: GNU ld's --dependency-file on the same command (as a
    set, minus what ld is known not to track: unpulled thin members, the retain file) and, for a sample
    (all in thorough), `strace -f -e trace=openat` of the wild link (files really opened read-only).
@@ -18,6 +23,7 @@ import os
 import random
 import re
 import shutil
+import subprocess
 import time
 from concurrent.futures import ThreadPoolExecutor
 from pathlib import Path
@@ -238,6 +244,73 @@ def one_case(i, rec, w, real, wild, with_strace, with_ld):
     return res
 
 
+def history_case(i, rec, w, d, wild):
+    """Replay of the spec behaviour  verified -> Vanish(gone) -> WriteDep  on a private copy of the world.
+    -> dict(status 'ok'|'na'|'tool', problems [(key, text)], ...)"""
+    hw = d / f"h{i}"
+    shutil.copytree(w, hw, symlinks=True)
+    real = {os.path.realpath(hw / p): f for f, p in FILE_PATH.items()}
+    pause = hw / "_pause"
+    pause.mkdir()
+    gone = rec["gone"]
+    args = args_of(rec["cmd"]) + ["-o", "out.so", "--dependency-file=dep.d"]
+    env = dict(os.environ, WILD_VALIDATE_OUTPUT="0", RUST_BACKTRACE="0", WILD_VERIF_PAUSE=f"verified:{pause}")
+    res = {"cmd": rec["cmd"], "gone": gone, "args": args, "problems": [], "dir": hw}
+    p = subprocess.Popen([str(wild)] + args, cwd=hw, env=env, stdin=subprocess.DEVNULL, stdout=subprocess.PIPE,
+                         stderr=subprocess.PIPE, start_new_session=True)
+    t0 = time.time()
+    try:
+        while not (pause / "reached").exists() and p.poll() is None and time.time() - t0 < 50:
+            time.sleep(0.002)
+        if not (pause / "reached").exists():
+            out, err = p.communicate(timeout=60)
+            res["status"] = "tool" if p.returncode == 0 else "na"
+            res["detail"] = f"pause point `verified` not reached rc={p.returncode} {err.decode(errors='replace')[-200:]!r}"
+            return res
+        # the environment action: the file disappears (the link has read it and re-verified it already)
+        os.unlink(hw / FILE_PATH[gone])
+        (pause / "go").write_text("")
+        out, err = p.communicate(timeout=60)
+    except subprocess.TimeoutExpired:
+        os.killpg(p.pid, 9)
+        p.communicate()
+        res["status"] = "na"
+        res["detail"] = "link did not finish after the pause"
+        return res
+    if p.returncode != 0 or not (hw / "dep.d").is_file():
+        res["status"] = "na"
+        res["detail"] = f"link failed after the input vanished rc={p.returncode} {err.decode(errors='replace')[-200:]!r}"
+        return res
+    res["status"] = "ok"
+    text = (hw / "dep.d").read_text()
+    res["depfile"] = text
+    try:
+        main = [(t, pr) for t, pr in parse_depfile(text) if pr]
+        listed, unknown = resolve_ids(main[0][1], hw, real) if main else ([], [])
+    except ValueError as e:
+        res["problems"].append(("syntax", f"dependency file is not Makefile syntax: {e}"))
+        return res
+    # a vanished file cannot be resolved through realpath of a symlink-free tree: FILE_PATH is plain, so it still is
+    res["listed"] = listed
+    want = set(rec["read"])
+    for f in sorted(want - set(listed)):
+        if f == gone and f in rec["wild"]:      # the spec says wild lists it, whatever happened to it afterwards
+            res["problems"].append((f"missing:{KIND_NAME[f]}:vanished-after-verification",
+                                    f"{FILE_PATH[f]} ({KIND_NAME[f]}) was read and re-verified, then deleted before the dependency "
+                                    f"file was written: it is not listed"))
+        else:
+            res["problems"].append((f"missing:{KIND_NAME[f]}", f"{FILE_PATH[f]} ({KIND_NAME[f]}) was read but is not listed"))
+    for f in sorted(set(listed) - want):
+        res["problems"].append((f"extra:{KIND_NAME[f]}", f"{FILE_PATH[f]} is listed but is not read by this link"))
+    for u in unknown:
+        res["problems"].append((f"extra:{u}", f"lists {u}, which is not a file of the link"))
+    for f in sorted({f for f in listed if listed.count(f) > 1}):
+        res["problems"].append((f"duplicate:{KIND_NAME[f]}", f"{FILE_PATH[f]} is listed {listed.count(f)} times"))
+    res["matches_transcription"] = (listed == rec["wild"])
+    return res
+
+
+HISTORY_KINDS = ["o2", "A", "tm1", "L1", "V"]          # object, archive, thin-archive member, script, version script
 LD_BLIND = {"tm1", "tm2", "R"}   # GNU ld does not track unpulled thin members nor the retain file
 
 
@@ -249,7 +322,7 @@ def run(ctx):
     if not r.ok:
         raise ToolError(f"DepFile model check failed ({cfg}): {r.violated} {r.error_text}\n{r.trace_text[:2000]}")
     recs = r.records
-    if len(recs) != r.distinct or not recs:
+    if 2 * len(recs) != r.distinct or not recs:      # one `verified` and one `written` state per command
         raise ToolError(f"exported {len(recs)} commands but TLC found {r.distinct} states")
     claim = tlc.run_tlc("DepFile", "mc/DepFile_claim.cfg", workers=2, timeout=300, coverage=False)
     if claim.ok:
@@ -257,9 +330,20 @@ def run(ctx):
     old = tlc.run_tlc("DepFile", "mc/DepFile_old.cfg", workers=2, timeout=300, coverage=False)
     if old.ok or old.violated != "OldSatisfies":
         raise ToolError("anti-vacuity: the pre-fix dependency-file algorithm was not rejected by the model")
-    cov["states"], cov["transitions"] = r.distinct, r.generated
+    hist = tlc.run_tlc("DepFile", "mc/DepFile_history.cfg", workers=4, timeout=600)
+    if not hist.ok:
+        raise ToolError(f"DepFile history model check failed: {hist.violated} {hist.error_text}\n{hist.trace_text[:2000]}")
+    if tlc.zero_coverage_actions(hist, ["Vanish", "WriteDep"]):
+        raise ToolError("vacuous history run: Vanish / WriteDep never taken")
+    hrecs = [x for x in hist.records if x["gone"] != "none"]
+    hb = tlc.run_tlc("DepFile", "mc/DepFile_history_broken.cfg", workers=2, timeout=300, coverage=False)
+    if hb.ok or hb.violated != "CodedSatisfiesUpToRetain":
+        raise ToolError("anti-vacuity: the variant that skips vanished prerequisites was not rejected by the model")
+    cov["states"], cov["transitions"] = r.distinct + hist.distinct, r.generated + hist.generated
     cov["tlc_runs"] = [{"cfg": cfg, **r.summary()}, {"cfg": "mc/DepFile_claim.cfg", "expected_violation": claim.violated},
-                       {"cfg": "mc/DepFile_old.cfg", "expected_violation": old.violated}]
+                       {"cfg": "mc/DepFile_old.cfg", "expected_violation": old.violated},
+                       {"cfg": "mc/DepFile_history.cfg", **hist.summary(), "behaviours_with_vanish": len(hrecs)},
+                       {"cfg": "mc/DepFile_history_broken.cfg", "expected_violation": hb.violated}]
     cov["model_predicts_wild_incomplete"] = sum(1 for x in recs if not x["wild_ok"])
     cov["old_algorithm_incomplete"] = sum(1 for x in recs if sorted(set(x["old"])) != sorted(x["read"]) or len(set(x["old"])) != len(x["old"]))
 
@@ -331,6 +415,50 @@ def run(ctx):
             raise ToolError(f"{n_na_unexpected} commands the model expects to link do not link")
         if n_ld == 0 or n_strace_done == 0:
             raise ToolError("no independent witness (GNU ld / strace) confirmed the rule in this run")
+        # 2b. history: Vanish after the re-verification, for one input of each kind (+ a few random ones)
+        hsel = []
+        linkable = [x for x in hrecs if x["wild_links"]]
+        for g in HISTORY_KINDS:
+            c = [x for x in linkable if x["gone"] == g]
+            if not c:
+                raise ToolError(f"no history behaviour in which {g} vanishes")
+            hsel += rng.sample(c, min(len(c), 1 if ctx.quick else 4))
+        hsel += rng.sample(linkable, min(len(linkable), 5 if ctx.quick else 40))
+        with ThreadPoolExecutor(max_workers=4) as ex:
+            hres = list(ex.map(lambda ix: (history_case(ix[0], ix[1], w, d, wild), ix[1]), enumerate(hsel)))
+        h_ok = h_na = 0
+        hkinds = set()
+        for res, rec in hres:
+            if res["status"] == "tool":
+                raise ToolError(f"history replay: {res['detail']} (hooks not compiled in?)")
+            if res["status"] == "na":
+                h_na += 1
+                log(f"note: history case {rec['cmd']} gone={rec['gone']}: {res['detail']}")
+                continue
+            h_ok += 1
+            hkinds.add(KIND_NAME[rec["gone"]])
+            if res.get("matches_transcription") is False:
+                n_stale += 1
+            for key, text in res["problems"]:
+                keys[key] = keys.get(key, 0) + 1
+
+                def mkh(res=res, rec=rec, key=key):
+                    return save_replay(PROP, f"hist-{'_'.join(rec['cmd']) or 'plain'}-gone-{rec['gone']}", res["dir"], meta={
+                        "args": res["args"], "cwd": "<this directory>",
+                        "env": {"WILD_VERIF_PAUSE": "verified:<dir>  (wild creates <dir>/reached and waits for <dir>/go)"},
+                        "history": f"run wild; when _pause/reached exists delete {FILE_PATH[rec['gone']]}; create _pause/go",
+                        "expected_prerequisites": sorted(FILE_PATH[f] for f in rec["read"]),
+                        "observed_depfile": res.get("depfile"), "problem": key})
+                ctx.verdict.report(key, f"link `{' '.join(res['args'])}` with {FILE_PATH[rec['gone']]} deleted after the "
+                                        f"re-verification: {text}", mkh)
+            if len(cov["samples"]) < 7:
+                cov["samples"].append({"history": f"verified -> Vanish({rec['gone']}) -> WriteDep", "cmd": rec["cmd"],
+                                       "read": sorted(rec["read"]), "listed": res.get("listed"),
+                                       "problems": [k for k, _ in res["problems"]]})
+        if h_ok < len(HISTORY_KINDS):
+            raise ToolError(f"only {h_ok} history replays produced a dependency file ({h_na} links failed after the deletion)")
+        cov["history_replays"] = {"ok": h_ok, "link_failed": h_na, "kinds_vanished": sorted(hkinds)}
+
         # binding demonstration: a corrupted observation (one prerequisite dropped from a correct list) is noticed
         demo = None
         for res, rec in results:
@@ -344,14 +472,14 @@ def run(ctx):
         if demo is False:
             raise ToolError("binding demo: a dropped prerequisite was not noticed")
         cov["binding_demo"] = {"dropped_prerequisite_detected": demo}
-    cov["traces_validated_against_impl"] = n_ok
+    cov["traces_validated_against_impl"] = n_ok + h_ok
     cov["commands_not_linkable"] = n_na
     cov["commands_not_linkable_unexpected"] = n_na_unexpected
     cov["rule_confirmed_by_gnu_ld"] = n_ld
     cov["rule_confirmed_by_strace"] = n_strace_done
     cov["transcription_mismatches"] = n_stale
     cov["problem_keys"] = keys
-    cov["samples"] = trim_samples(cov["samples"], 5, 900)
+    cov["samples"] = trim_samples(cov["samples"], 7, 900)
     return {
         "level": "model_checking",
         "coverage": cov,
